@@ -1809,6 +1809,12 @@ def rule_X1(ctx):
     ctx.ob("X1", pt, "columns widen to the longest value (names are padded, never cut)", ok, "", inst="no-cut")
     tr = ctx.fn(ip, "InfoTree.print_tree", "X1")
     bi = ctx.fn(ip, "InfoTree.print_tree.build_inner", "X1")
+    # the row record: whatever class the rows appended to the row list are built with (local dataclass or module-level one)
+    tr0 = ctx.fn(ip, "InfoTree.print_tree", "X1")
+    _classes = {c_.name for c_ in ast.walk(ctx.prog.module(ip).tree) if isinstance(c_, ast.ClassDef)}
+    rcls = {c.args[0].func.id for c in ast.walk(tr0) if isinstance(c, ast.Call) and isinstance(c.func, ast.Attribute) and c.func.attr == "append" and len(c.args) == 1
+            and isinstance(c.args[0], ast.Call) and isinstance(c.args[0].func, ast.Name) and c.args[0].func.id in _classes}
+    ROWCLS = sorted(rcls)[0] if len(rcls) == 1 else "RowEntry"
     from .streams import _walk as _wx
     from .util import evaluator as _evx
     bcfg = ctx.cfg(bi, "X1")
@@ -1848,13 +1854,13 @@ def rule_X1(ctx):
                         empty = (s_.label == "true") == e_
             if is_str == "contradiction":
                 continue
-            rows_ = [(c, e) for c, e, st in calls_on(pr) if isinstance(c.func, ast.Name) and c.func.id == "RowEntry"]
+            rows_ = [(c, e) for c, e, st in calls_on(pr) if isinstance(c.func, ast.Name) and c.func.id == ROWCLS]
             recs = [(c, e) for c, e, st in calls_on(pr) if isinstance(c.func, ast.Name) and c.func.id == bi.name]
             if len(rows_) != 1:
                 ok, det = False, f"{len(rows_)} rows for one key"
                 continue
             rk = _evx(ctx, bi, rows_[0][1]).ev(rows_[0][0]).key()
-            m_ = re.fullmatch(r"RowEntry\(tuple\((.*)\),(.*)\)", rk)
+            m_ = re.fullmatch(re.escape(ROWCLS) + r"\(tuple\((.*)\),(.*)\)", rk)
             if m_ is None or m_.group(2).replace("~", "") != "depth":
                 ok, det = False, f"row built as `{rk[:120]}`"
                 continue
@@ -1910,17 +1916,95 @@ def rule_X1(ctx):
         kdet = "" if kinds_ok else f"pairs come from {src_terms}"
     ctx.ob("X1", bi, "every key of an item produces one row; nested values are expanded below it", ok, "" if ok else det, inst="tree-rows")
     ctx.ob("X1", bi, "sequences are rendered element by element, mappings key by key", kinds_ok, kdet, inst="tree-kinds")
-    t = full(tr)
-    ok = "if i > self.max_rows:" in t and "exceeded {self.max_rows} lines" in t
-    ctx.ob("X1", tr, "output is cut only after max_rows rows, with a notice", ok, "", inst="row-cap")
-    ok = "if len(result) > self.total_width:" in t and "result[0:self.total_width - 3] + '...'" in t
-    ctx.ob("X1", tr, "a line is shortened only when it exceeds the total width", ok, "", inst="width-cap")
+    # the render loop, decided per iteration path: what is written for a row, when the output is cut, when a line is shortened
+    from .util import atomic_facts as _afx
+    tcfg = ctx.cfg(tr, "X1")
+    rloops = [f for f in own_nodes(tr) if isinstance(f, ast.For) and any(isinstance(c, ast.Call) and isinstance(c.func, ast.Attribute) and c.func.attr == "write" for c in ast.walk(f))]
+    ok_cap = ok_width = len(rloops) == 1
+    det_cap = det_width = "" if ok_cap else f"{len(rloops)} render loops"
+    if ok_cap:
+        rl = rloops[0]
+        # for i, row in enumerate(rows)
+        it_ok = isinstance(rl.iter, ast.Call) and norm(rl.iter.func) == "enumerate" and len(rl.iter.args) == 1 and isinstance(rl.target, ast.Tuple) and len(rl.target.elts) == 2
+        iv, rv = (rl.target.elts[0].id, rl.target.elts[1].id) if it_ok and all(isinstance(e_, ast.Name) for e_ in rl.target.elts) else ("?", "?")
+        ok_cap = ok_cap and it_ok
+        n_cap = n_div = n_row = n_short = 0
+        for kind, path, edge in tcfg.iteration_paths(tcfg.loop_of(rl)):
+            if kind == "exit" and len(path) == 1:
+                continue
+            pr = _wx(ctx, tr, tcfg, path)
+            facts = dict((c_.replace("~", ""), t_) for c_, t_ in _afx(pr))
+            writes = [_evx(ctx, tr, e_).ev(c_.args[0]).key().replace("~", "") for c_, e_, st_ in calls_on(pr)
+                      if isinstance(c_.func, ast.Attribute) and c_.func.attr == "write" and len(c_.args) == 1]
+            from .util import path_conds_struct as _pcs
+            from ..core.terms import same_cmp as _same, NEG as _NEG, Term as _Tm
+            cs_ = [(d_, op_ if tk_ else _NEG[op_]) for d_, op_, tk_, nd_ in _pcs(ctx, tr, pr)]
+            I_, M_, W_ = _Tm.atom(iv + "~"), _Tm.atom("self.max_rows"), _Tm.atom("self.total_width")
+            capped = True if any(_same(c_, (I_ - M_, ">")) for c_ in cs_) else (False if any(_same(c_, (I_ - M_, "<=")) for c_ in cs_) else None)
+            if capped is True:
+                n_cap += 1
+                if kind != "exit" or not any("exceeded" in w_ and "max_rows" in w_ for w_ in writes):
+                    ok_cap, det_cap = False, f"past the row limit the loop writes {writes} and {'goes on' if kind != 'exit' else 'stops'}"
+                continue
+            if capped is None:
+                ok_cap, det_cap = False, "a row is rendered on a path that does not test the row limit"
+                continue
+            if kind != "back":
+                ok_cap, det_cap = False, "rendering stops before the row limit"
+                continue
+            if facts.get(f"truthy({rv}.is_divider)") is True:
+                n_div += 1
+                if writes not in ([f"'-'*self.total_width + '\\n'"], [f"'\\n' + '-'*self.total_width"]):
+                    ok_width, det_width = False, f"a divider is written as {writes}"
+                continue
+            n_row += 1
+            if len(writes) != 1:
+                ok_width, det_width = False, f"{len(writes)} writes for one row"
+                continue
+            w_ = writes[0]
+            long_, joined = None, None
+            for d_, op_ in cs_:
+                la_ = [a_ for a_ in d_.atoms() if a_.startswith("len(")]
+                if len(la_) == 1 and d_.atoms() == {la_[0], "self.total_width"}:
+                    L_ = _Tm.atom(la_[0])
+                    if _same((d_, op_), (L_ - W_, ">")):
+                        long_, joined = True, la_[0][4:-1].replace("~", "")
+                    elif _same((d_, op_), (L_ - W_, "<=")):
+                        long_, joined = False, la_[0][4:-1].replace("~", "")
+            if long_ is None or joined is None or not (joined.startswith(("(self.delimiter).join(", "self.delimiter.join(")) and f"{rv}.content" in joined and f"{rv}.depth" in joined):
+                ok_width, det_width = False, f"a row is written as `{w_[:100]}` without comparing the joined cells with the total width"
+            elif long_ is True:
+                n_short += 1
+                if w_ not in (f"'...' + '\\n' + slice({joined},:-3 + self.total_width:)", f"'...' + '\\n' + slice({joined},0:-3 + self.total_width:)",
+                              f"'\\n' + '...' + slice({joined},:-3 + self.total_width:)", f"'\\n' + '...' + slice({joined},0:-3 + self.total_width:)"):
+                    ok_width, det_width = False, f"an over-long line is written as `{w_[:140]}`"
+            else:
+                if w_ not in (f"'\\n' + {joined}", f"{joined} + '\\n'"):
+                    ok_width, det_width = False, f"a line that fits is written as `{w_[:140]}`"
+        ok_cap = ok_cap and n_cap >= 1 and n_row >= 1
+        ok_width = ok_width and n_row >= 2 and n_short >= 1 and n_div >= 1
+    ctx.ob("X1", tr, "output is cut only after max_rows rows, with a notice", ok_cap, det_cap, inst="row-cap")
+    ctx.ob("X1", tr, "a line is shortened only when it exceeds the total width", ok_width, det_width, inst="width-cap")
     init = ctx.fn(ip, "InfoTree.__init__", "X1")
     d = {a.arg: norm(v) for a, v in zip(init.args.args[-len(init.args.defaults):], init.args.defaults)}
     ok = d.get("total_width") == "80" and d.get("max_rows") == "300"
     ctx.ob("X1", init, "defaults: 80 columns, 300 rows", ok, f"{d}", inst="defaults")
-    ok = "build_inner(self.items)" in t and "row_entries.append(RowEntry(tuple(self.header)))" in t
-    ctx.ob("X1", tr, "the tree starts with the header and renders all items", ok, "", inst="tree-start")
+    # before rendering: header row, divider, then every item through build_inner - in that order, on every path
+    ok, n_p = True, 0
+    for p_ in run_paths(ctx, tr, rule="X1", limit=4000):
+        if p_.end != "return":
+            continue
+        n_p += 1
+        evs = []
+        for c_, e_, st_ in calls_on(p_):
+            if isinstance(c_.func, ast.Attribute) and c_.func.attr == "append" and len(c_.args) == 1 and isinstance(c_.args[0], ast.Call):
+                evs.append(("row", _evx(ctx, tr, e_).ev(c_.args[0]).key()))
+            elif isinstance(c_.func, ast.Name) and c_.func.id == bi.name:
+                evs.append(("items", _evx(ctx, tr, e_).ev(c_).key()))
+        rowc = ROWCLS
+        ok = ok and len(evs) >= 3 and evs[0] == ("row", f"{rowc}(tuple(self.header))") and evs[1] in (("row", f"{rowc}(is_divider=1)"), ("row", f"{rowc}(tuple(''),0,1)")) \
+            and evs[2] == ("items", f"{bi.name}(self.items)") and len([e_ for e_ in evs if e_[0] == "items"]) == 1
+    ctx.ob("X1", tr, "the tree starts with the header and renders all items", ok and n_p >= 1, "", inst="tree-start")
     gi = ctx.fn("smpl_extract/elements.py", "LeafElement.get_info", "X1")
     t = full(gi)
     ok = "header = (self.safe_name, ' ' * 2, self.type_name)" in t and "items = self.itemize()" in t and "InfoTree(header, items)" in t
